@@ -569,6 +569,10 @@ func (r *srcRun) guard(src string, f func()) {
 	defer func() {
 		if rec := recover(); rec != nil {
 			r.add("C16", src, "panic: %v", rec)
+			if strings.HasPrefix(src, "transformer:") {
+				// a bare mangler chain that cannot translate / reverse-translate a supported type is also not lossless
+				r.add("C10", src, "panic: %v", rec)
+			}
 		}
 	}()
 	f()
